@@ -23,7 +23,7 @@ RULE = ('Generated: genome sets of 1..10 genomes with unique key / genbank_acc /
 ASSUMPTIONS = ['signature IDs within one file are unique (the property quantifies over files with unique IDs)']
 DEADLINE_S = {'quick': 240, 'thorough': 2400}
 ATTRS = ['key', 'genbank_acc', 'refseq_acc', 'ncbi_id']
-NEG = ['drop_sigs', 'id_attr_none', 'id_attr_bad', 'null_id', 'int_ids_as_str', 'no_gdb', 'two_gdb', 'no_gs', 'two_gs']
+NEG = ['drop_sigs', 'id_attr_none', 'id_attr_absent', 'id_attr_bad', 'null_id', 'int_ids_as_str', 'no_gdb', 'two_gdb', 'no_gs', 'two_gs']
 
 
 def budget(tier):
@@ -156,13 +156,19 @@ def run_case(case, ctx):
 			if neg == 'int_ids_as_str':
 				neg = 'none_applicable'
 		meta_attr = attr
-		if neg == 'id_attr_none':
+		if neg in ('id_attr_none', 'id_attr_absent'):
 			meta_attr = None
 		elif neg == 'id_attr_bad':
 			meta_attr = ['description', 'id', 'ncbi_db', 'Key', 'taxon'][case['seed'] % 5]
 		arrays = [e[1] for e in entries]
 		cont = SignatureArray(arrays, spec, dtype=np.dtype('u2')) if case['seed'] % 2 else SignatureList(arrays, spec, dtype=np.dtype('u2'))
 		dump_signatures(os.path.join(d, gs_name), AnnotatedSignatures(cont, ids_arg, SignaturesMeta(id_attr=meta_attr)))
+		if neg == 'id_attr_absent':
+			# a signature file in which the id_attr attribute does not exist at all (written by another tool, or removed)
+			import h5py
+			with h5py.File(os.path.join(d, gs_name), 'r+') as hf:
+				if 'id_attr' in hf.attrs:
+					del hf.attrs['id_attr']
 		# directory variants
 		for extra in case['extra_files']:
 			open(os.path.join(d, extra), 'w').write('unrelated\n')
